@@ -41,8 +41,20 @@ func defaultStrs(n int) []string {
 	return all[:n]
 }
 
+// hugeMark in Strs stands for a string of 2^24+5 bytes (kept out of the case descriptor)
+const hugeMark = "\x00<16 MiB + 5 bytes>"
+
+var hugeString = strings.Repeat("0123456789abcdef", 1<<20) + "tail!"
+
 func (c colSpec) strs() []string {
 	if c.Strs != nil {
+		for i, s := range c.Strs {
+			if s == hugeMark {
+				out := append([]string{}, c.Strs...)
+				out[i] = hugeString
+				return out
+			}
+		}
 		return c.Strs
 	}
 	return defaultStrs(c.Len)
@@ -492,6 +504,9 @@ func c08Run(ctx *core.Ctx) {
 				d[len(d)-1] = d[0] // duplicate
 				out = append(out, d)
 			}
+			// every column named, one of them twice (too long by a duplicate, at the end and in front)
+			out = append(out, append(append([]string{}, names...), names[0]))
+			out = append(out, append([]string{names[len(names)-1]}, names...))
 		}
 		return out
 	}
@@ -602,6 +617,12 @@ func c08Run(ctx *core.Ctx) {
 			if ctx.Mine() {
 				execNew(newCase{Cols: []colSpec{{Name: "a", Kind: kind, Len: l}, {Name: "b", Kind: "ints", Len: l}}})
 			}
+		}
+	}
+	// one very long string (beyond 2^24 bytes) between short ones
+	for _, kind := range []string{"strptrs", "strings"} {
+		if ctx.Mine() {
+			execNew(newCase{Cols: []colSpec{{Name: "a", Kind: kind, Len: 3, Strs: []string{"x", hugeMark, "y"}}}})
 		}
 	}
 	for _, s := range cells {
